@@ -326,6 +326,11 @@ func shapeLetters(v int) []*letter {
 	ck("ck-encoded", "cookie=percent-and-symbols", "sid="+fl("a%20b%3Dc")+"; theme="+fl("x=y=z")+"; l="+fl("p,q"), map[string]string{"Cookies|sid": fl("a%20b%3Dc")})
 	ck("ck-flash-truncated", "cookie=flash-truncated", "fiber_flash="+flashCookie([4]string{fl("status"), fl("saved-ok"), "!", "msg"}, [4]string{fl("email"), fl("old@example.com"), "#", "old"})[:30]+"; sid="+fl("flt-sid"), nil)
 
+	// not more messages than the flash letter of the general alphabet has: the decoder then re-slices the same array
+	ck("ck-flash-fewer-fields", "cookie=flash-with-fewer-fields", "fiber_flash="+flashCookieMin(map[string]string{"key": fl("email"), "value": fl("an-old-input"), "old": ""},
+		map[string]string{"key": fl("status"), "value": fl("second-message")}, map[string]string{"value": fl("value-only")})+"; sid="+fl("ffw-sid"),
+		map[string]string{"Redirect.Messages|0.Key": fl("status"), "Redirect.Messages|0.Value": fl("second-message"), "Redirect.Messages|1.Value": fl("value-only"), "Redirect.Messages|1.Key": "", "Redirect.OldInputs|0.Value": fl("an-old-input")})
+
 	// ---- host / proxy headers -----------------------------------------------------------
 	hostL := func(name, class, host string, want map[string]string, more ...string) {
 		get(name, class, "/u/"+fl(name), "q="+fl("ho"), append(hdr("Host", host, "X-Custom", fl("custom-"+name)), hdr(more...)...), want)
